@@ -7,6 +7,7 @@ import torch
 import cirkit.symbolic.functional as SF
 from cirkit.backend.torch.queries import IntegrateQuery
 from cirkit.utils.scope import Scope
+from cirkit.symbolic import parameters as P
 
 import evalc
 import export
@@ -193,14 +194,74 @@ def one_case(rep, cs, seed, i):
     cs.add(desc, term, interp, nontrivial=g.desc["sums"] >= 1 and g.desc["prods"] >= 1)
 
 
+def extreme_case(rep, seed, i):
+    """logits of large magnitude (all logits of a unit below -745, or some above +709): the marginals are finite in the log-space
+    semiring and must be computed stably; compared in LOG space with the log-sum-exp of the compiled circuit's own log-outputs"""
+    from cirkit.symbolic import layers as L
+    from cirkit.symbolic.initializers import ConstantTensorInitializer
+    rng = rng_for(seed, PID + "extreme", i)
+    o = gen.random_opts(rng, kinds=["cat_logits"], monotone=True, nout=1)
+    o["nvars"] = rng.choice([2, 3])
+    sc, g = gen.gen_circuit(rng, **o)
+    off = rng.choice([-800.0, -760.0, -1200.0, 720.0])
+    shifted = 0
+    for l in sc.layers:
+        if isinstance(l, L.CategoricalLayer) and l.logits is not None and len(l.logits.nodes) == 1 and isinstance(l.logits.nodes[0], P.TensorParameter):
+            t = l.logits.nodes[0]
+            if isinstance(t.initializer, ConstantTensorInitializer) and not getattr(t, "_shifted", False) and rng.random() < 0.7:
+                t.initializer = ConstantTensorInitializer(np.asarray(t.initializer.value, dtype=np.float64) + off)
+                t._shifted = True
+                shifted += 1
+    if not shifted:
+        return
+    scope = sorted(sc.scope._set)
+    fold, opt = rng.choice(evalc.FLAGS)
+    desc = {"i": i, "seed": seed, "family": "extreme-logits", "offset": off, "sem": "lse-sum", "fold": fold, "opt": opt, **g.desc}
+    rep.count("family:extreme-logits")
+    rep.case(desc, True)
+    try:
+        ctx = evalc.make_ctx("lse-sum", fold, opt)
+        cc = ctx.compile(sc)
+        w = evalc.width_of(sc)
+        B = rng.choice([1, 2, 3])
+        ys = gen.sample_inputs(rng, g.doms, scope, B, exhaustive_limit=0)[:B]
+        while len(ys) < B:
+            ys.append(dict(ys[-1]))
+        Zs = [sorted(rng.sample(scope, rng.randint(1, len(scope)))) for _ in range(B)]
+        desc["Zs"] = Zs
+        x = evalc.to_batch(ys, w)
+        out = IntegrateQuery(cc)(x, integrate_vars=[Scope(Z) for Z in Zs]).detach()
+        exp = []
+        for y, Z in zip(ys, Zs):
+            zas = all_assignments(g.doms, Z)
+            raw = cc(evalc.to_batch([{**y, **z} for z in zas], w)).detach()   # (A, O, K) log-values
+            exp.append(torch.logsumexp(raw, dim=0))
+        exp = torch.stack(exp)
+    except Exception as e:
+        rep.violation("query-exception:" + type(e).__name__, "the integration query raised on valid arguments",
+                      {"case": desc, "exception": repr(e)[:300], "traceback": traceback.format_exc()[-1500:]})
+        return
+    if not torch.all(torch.isfinite(exp)):
+        rep.count("extreme:reference-not-finite")
+        return
+    if not torch.all(torch.isfinite(out)) or not torch.allclose(out.real if out.is_complex() else out, exp, rtol=1e-9, atol=1e-7):
+        rep.violation("query-extreme-logits", "with logits of large magnitude the integration query does not return the (finite) log-marginal "
+                      "that the compiled circuit's own log-outputs determine", {"case": desc, "inputs": ys, "observed": out.tolist(), "expected": exp.tolist()})
+
+
 def run(rep, tier, seed, replay=None):
     n = 80 if tier == "quick" else 900
     cs = CaseSet(rep, PID)
     if replay is not None:
         c = replay["replay"].get("case", {})
-        one_case(rep, cs, c.get("seed", seed), c.get("i", 0))
+        if c.get("family") == "extreme-logits":
+            extreme_case(rep, c.get("seed", seed), c.get("i", 0))
+        else:
+            one_case(rep, cs, c.get("seed", seed), c.get("i", 0))
         cs.run()
         return
     for i in range(n):
         one_case(rep, cs, seed, i)
+    for i in range(max(16, n // 5)):
+        extreme_case(rep, seed, i)
     cs.run(shard=max(4, 80 // 14))  # shard size of the quick tier: thorough runs use more files, not longer ones
